@@ -19,6 +19,7 @@ import (
 	"github.com/tokenized/spynode/pkg/client"
 	"github.com/tokenized/spynode/pkg/vrt"
 	"github.com/tokenized/spynode/pkg/vrt/vnet"
+	"github.com/tokenized/spynode/pkg/vrt/vtime"
 )
 
 // The closed system for the remote-client checks C16-C18: the real RemoteClient.Run (rewritten:
@@ -82,8 +83,15 @@ type cEvent struct {
 func (r *cRec) add(kind string, id uint64) {
 	r.events = append(r.events, cEvent{Kind: kind, ID: id, At: vrt.NowNS(), Conn: len(r.w.conns) - 1})
 }
-func (r *cRec) HandleTx(ctx context.Context, tx *client.Tx)             { r.add("tx", tx.ID) }
-func (r *cRec) HandleTxUpdate(ctx context.Context, u *client.TxUpdate)  { r.add("update", u.ID) }
+func (r *cRec) HandleTx(ctx context.Context, tx *client.Tx)            { r.work(); r.add("tx", tx.ID) }
+func (r *cRec) HandleTxUpdate(ctx context.Context, u *client.TxUpdate) { r.work(); r.add("update", u.ID) }
+
+// work: the application takes a while (virtual time) to process a notification.
+func (r *cRec) work() {
+	if r.id == 0 && r.w.cfg.HandlerDelay > 0 {
+		vtime.Sleep(vtime.Duration(r.w.cfg.HandlerDelay))
+	}
+}
 func (r *cRec) HandleHeaders(ctx context.Context, h *client.Headers)    { r.add("headers", uint64(h.StartHeight)) }
 func (r *cRec) HandleInSync(ctx context.Context)                        { r.add("insync", 0) }
 func (r *cRec) HandleMessage(ctx context.Context, p client.MessagePayload) {
@@ -91,6 +99,15 @@ func (r *cRec) HandleMessage(ctx context.Context, p client.MessagePayload) {
 	if _, ok := p.(*client.AcceptRegister); ok && r.id == 0 && r.w.autoReady {
 		// the application declares ready with the resume point the client reports
 		next := r.w.C.NextMessageID()
+		if r.w.cfg.OwnID {
+			// like cmd/client: the application keeps the id of the last notification it handled
+			next = r.w.noteBase
+			for _, e := range r.events {
+				if e.Kind == "tx" || e.Kind == "update" {
+					next = e.ID + 1
+				}
+			}
+		}
 		if r.w.readyOverride > 0 {
 			next = r.w.readyOverride
 			r.w.readyOverride = 0
@@ -112,6 +129,8 @@ type CWorldCfg struct {
 	FirstReady     uint64 // first Ready uses this id instead of NextMessageID()
 	RequestTimeout time.Duration
 	MessageTimeout time.Duration `json:",omitempty"` // message channel time-out (default 30 s)
+	HandlerDelay   time.Duration `json:",omitempty"` // virtual time handler 0 spends on every tx / update notification
+	OwnID          bool          `json:",omitempty"` // handler declares ready with its own last handled id + 1 instead of NextMessageID()
 	MaxPoints      int64
 }
 
